@@ -20,6 +20,65 @@ class Arm:
         self.outer = outer  # enclosing Arm for nested matches
 
 
+# locals of the pinned interpreter that hold a field of the instruction being executed; the rules are written with these names.
+# Any *other* local bound once, inside one arm, to a plain field chain of `instruction` (`variable = instruction.Variable`) is
+# presented inlined: the VM never assigns fields of IR instructions, so the local and the chain denote the same object
+# wherever the local is read.  (Inlining these seven as well would be equally sound; it is a choice of spelling.)
+KEPT_FIELD_ALIASES = {"ref", "indices", "array", "operation", "varType", "targetType", "opCode"}
+
+
+def _inline_field_aliases(match: ast.Match, root: str = "instruction"):
+    import copy
+
+    def is_chain(e):
+        while isinstance(e, ast.Attribute):
+            e = e.value
+        return isinstance(e, ast.Name) and e.id == root
+
+    for case in match.cases:
+        binds = {}
+        for n in ast.walk(case):
+            if isinstance(n, (ast.Assign, ast.AugAssign, ast.AnnAssign, ast.For, ast.With, ast.NamedExpr, ast.comprehension)):
+                tg = n.targets if isinstance(n, ast.Assign) else [getattr(n, "target", None)] if not isinstance(n, ast.With) else [i.optional_vars for i in n.items]
+                for t in tg:
+                    for x in ast.walk(t) if t is not None else []:
+                        if isinstance(x, ast.Name) and isinstance(x.ctx, ast.Store):
+                            binds.setdefault(x.id, []).append(n)
+        env = {}
+        for name, sites in binds.items():
+            s = sites[0]
+            if len(sites) == 1 and name not in KEPT_FIELD_ALIASES and isinstance(s, ast.Assign) and len(s.targets) == 1 and isinstance(s.targets[0], ast.Name) \
+                    and isinstance(s.value, ast.Attribute) and is_chain(s.value):
+                env[name] = s
+
+        if not env:
+            continue
+
+        class _S(ast.NodeTransformer):
+            def visit_Name(self, n):
+                if isinstance(n.ctx, ast.Load) and n.id in env:
+                    return ast.copy_location(copy.deepcopy(env[n.id].value), n)
+                return n
+
+        def strip(stmts):
+            out = []
+            for st in stmts:
+                if any(st is a for a in env.values()):
+                    continue
+                for fld in ("body", "orelse", "finalbody"):
+                    if hasattr(st, fld) and isinstance(getattr(st, fld), list):
+                        setattr(st, fld, strip(getattr(st, fld)) or [ast.copy_location(ast.Pass(), st)])
+                if isinstance(st, ast.Match):
+                    for c in st.cases:
+                        c.body = strip(c.body) or [ast.copy_location(ast.Pass(), st)]
+                out.append(st)
+            return out
+
+        case.body = strip(case.body) or [ast.copy_location(ast.Pass(), case.pattern)]
+        for i, st in enumerate(case.body):
+            case.body[i] = ast.fix_missing_locations(_S().visit(st))
+
+
 class VMModel:
     def __init__(self, model: Model):
         self.model = model
@@ -41,6 +100,7 @@ class VMModel:
             isinstance(n, ast.Match) for n in self.loop.body) else next(n for n in ast.walk(self.loop) if isinstance(n, ast.Match))
         self.arms: Dict[str, Arm] = {}
         self.catchalls: List[Arm] = []
+        _inline_field_aliases(self.main_match)
         self._collect(self.main_match, None)
 
     def _pattern_members(self, pat) -> Optional[List[str]]:
